@@ -305,7 +305,56 @@ def replay_states(states, variant="float", stop_after=None) -> Out:
                               "fee": fstr(last["fee"]), "cash": fstr(exp["cash"]), "equity": fstr(last["eq"])})
         if stop_after is not None and j >= stop_after:
             break
+    if variant == "float" and not o.viols:
+        loaded_probe(o, states, rep, hist)
     return o
+
+
+def loaded_probe(o: Out, states, rep, hist):
+    """"... until the book is next refreshed", with the book LOADED from the market's data (as a backtest has it, status handed over
+    without a frame): the accepted trades of the path's first bar are issued against such a market, then the status of the SAME hour
+    is set again - the book the market shows must be the loaded one in full again, and the loaded frame itself must be as supplied."""
+    import pandas as pd
+    from demeter import Broker, MarketInfo, MarketTypeEnum
+    from demeter.deribit import DeribitMarketStatus, DeribitOptionMarket
+    from ..deribit_util import T0, book_frame, dec, project_market, spec_book, trade_call
+    st0 = states[0]["st"]
+    if not (st0["open"] and st0["hour"]):
+        return
+    first_bar = []
+    for node in states[1:]:
+        ev = node["last"]["ev"]
+        if ev["op"] == "refresh":
+            break
+        if ev["op"] in ("buy", "sell") and node["last"]["out"] == "ok":
+            first_bar.append(ev)
+    if not first_bar:
+        return
+    frame = book_frame(st0["book"], st0["info"], False)
+    data = pd.concat([frame], keys=[T0], names=["time", "instrument_name"])
+    snap = [(i, [list(x) for x in r.asks], [list(x) for x in r.bids]) for i, r in data.iterrows()]
+    m = DeribitOptionMarket(MarketInfo("opt", MarketTypeEnum.deribit_option), DeribitOptionMarket.ETH, data=data)
+    br = Broker()
+    br.add_market(m)
+    br.set_balance(DeribitOptionMarket.ETH, dec(st0["wallet"] + st0["cash"]) + 1000)
+    price = pd.Series([2000], index=["ETH"])
+    m.set_market_status(DeribitMarketStatus(timestamp=T0, data=None), price=price)
+    m.deposit(dec(st0["cash"]) + 1000)
+    try:
+        for ev in first_bar:
+            trade_call(m, ev)
+    except Exception:
+        return          # with other cash the order may be refused: nothing to observe here
+    m.set_market_status(DeribitMarketStatus(timestamp=T0, data=None), price=price)      # the same hour is read again
+    o.count("book_shrinks_by_fills_until_refresh(loaded book)")
+    shown = project_market(m)["book"]
+    after = [(i, [list(x) for x in r.asks], [list(x) for x in r.bids]) for i, r in data.iterrows()]
+    if shown != spec_book(st0) or after != snap:
+        r = dict(rep)
+        r["states"] = jsonable(states)
+        o.viols.append(("DeribitOptionMarket.set_market_status|book_shrinks_by_fills_until_refresh|loaded_book_reread",
+                        f"market with a loaded book, after {' ; '.join(hist)} and setting the status of the same hour again: the book shown is "
+                        f"{shown} and the loaded data {'were' if after != snap else 'were not'} changed; loaded book {spec_book(st0)}", r))
 
 
 # ----------------------------------------------------------------------------------------------------------------------
